@@ -13,7 +13,7 @@ RULE = ("histories of 3..20 client calls (thorough ..50) by one account (one sha
         "more times (the simulation may fail), fill()/autofill() the already filled group again, sign, inject (the node may "
         "refuse), send() (= autofill+sign+inject), a fill()/autofill() that raises on the client side (a content that cannot be forged), bake (pending operations are applied: counter advances, mempool empties), "
         "another account injects. Discipline: one group at a time (a group is injected or dropped after a refused injection "
-        "before the next one is built); explicit counter= overrides are not generated. Oracle: at every injection the payload is "
+        "before the next one is built); an explicit counter= is generated only with the right value (the next counter). Oracle: at every injection the payload is "
         "decoded by the reference operation codec; its counters must be c+m+1 .. c+m+k where c is the account's counter on the "
         "node and m the number of the account's operations pending in the mempool at that moment. Non-trivial: the history "
         "fills/autofills a group more than once, or injects while another injection is pending, or injects after a failed "
@@ -147,8 +147,12 @@ class World:
                 return "skip"
             self.sim_ok = s.get("sim_ok", True)
             self.node.mempool_down = bool(s.get("mempool_down"))
+            kw = {}
+            if s.get("explicit"):   # an application that keeps track of counters itself passes the (right) next counter
+                kw["counter"] = self.node.counters[self.pkh] + self.pending() + 1
+                self.flags.add("explicit-counter")
             try:
-                self.gf = self.g0.fill() if op == "fill" else self.g0.autofill()
+                self.gf = self.g0.fill(**kw) if op == "fill" else self.g0.autofill(**kw)
             except RpcError:
                 if self.node.mempool_down:   # the node refuses to show its mempool: the call fails, nothing was filled
                     self.node.mempool_down = False
@@ -267,6 +271,8 @@ def histories(draw, max_steps):
                 s["sim_ok"] = draw(st.integers(0, 4)) != 0
             if op in ("fill", "autofill") and draw(st.integers(0, 7)) == 0:
                 s["mempool_down"] = True    # this call finds the mempool endpoint closed
+            elif op in ("fill", "autofill") and draw(st.integers(0, 5)) == 0:
+                s["explicit"] = True
             out.append(s)
         if (out[-1]["op"] == "autofill" and not out[-1]["sim_ok"]) or out[-1].get("mempool_down"):
             out.append({"op": draw(st.sampled_from(["fill", "autofill"])), "sim_ok": True})
